@@ -240,6 +240,7 @@ type runner struct {
 	sum      workerSummary
 	done     uint64
 	deadline time.Time
+	hangs    int32
 	trunc    bool
 	digests  map[uint64]string
 	wantDig  bool
@@ -365,6 +366,13 @@ func (r *runner) runChunk(from, to uint64) {
 		close(stopWatch)
 		if atomic.LoadInt32(&hung) == 1 {
 			stderr.WriteString("\nfatal error: hang: no journal progress for " + fmt.Sprint(int(hangSecs)) + " s (killed by the driver's watchdog)\n")
+			// every further hang costs hangSecs of wall clock: after the third one the sweep stops (what was
+			// found is reported; the evidence file says that the run was truncated)
+			if atomic.AddInt32(&r.hangs, 1) >= 3 {
+				r.mu.Lock()
+				r.deadline = time.Now()
+				r.mu.Unlock()
+			}
 		}
 		if err == nil && gotSummary {
 			return
@@ -570,6 +578,9 @@ func (r *runner) crashReplay(v *violation, budget int) {
 		tape = append(tape, x)
 	}
 	cls, _ := r.runTape(tape)
+	if strings.Contains(cls, "/hang") && strings.Contains(v.Class, "hang") {
+		cls = v.Class // a hang found by the sweep's watchdog and a hang of the single-world replay are the same class
+	}
 	if cls != v.Class {
 		// the recovered tape ends where the process died; if replaying it does not die the same way
 		// (ThreadSanitizer reports depend on its bounded access history), fall back to replaying the
@@ -651,14 +662,14 @@ func (r *runner) confirm(v *violation) bool {
 	}
 	json.Unmarshal(b, &rf)
 	if rf.BySeed {
-		if c := r.runSeedOnce(rf.Index); c == v.Class {
+		if c := r.runSeedOnce(rf.Index); c == v.Class || (strings.Contains(c, "/hang") && strings.Contains(v.Class, "hang")) {
 			return true
 		}
 		v.Confirm = "seed replay in a fresh process did not reproduce"
 		return false
 	}
 	cls, _ := r.runTape(rf.Tape)
-	if cls == v.Class {
+	if cls == v.Class || (strings.Contains(cls, "/hang") && strings.Contains(v.Class, "hang")) {
 		return true
 	}
 	v.Confirm = fmt.Sprintf("replay in a fresh process gave class %q", cls)
@@ -838,6 +849,7 @@ func cmdCheck(args []string) int {
 		// process, the others by the worker itself
 		sort.Slice(r.viols, func(i, j int) bool { return r.viols[i].Index < r.viols[j].Index })
 		doneKey := map[string]bool{}
+		hangDone := false
 		for _, v := range r.viols {
 			key := v.Class
 			if k := matchKnown(v, known); k != nil {
@@ -847,6 +859,13 @@ func cmdCheck(args []string) int {
 			}
 			if doneKey[key] || len(doneKey) >= 32 {
 				continue
+			}
+			if v.Crash && strings.Contains(v.Class, "hang") {
+				// replaying a hang costs the watchdog's patience every time: one replay file per run is enough
+				if hangDone {
+					continue
+				}
+				hangDone = true
 			}
 			doneKey[key] = true
 			if v.Crash {
